@@ -20,6 +20,8 @@ type GenOpts struct {
 	MaxOps     int
 	NoRob      bool
 	OnlyCaches int // -1: any
+	Stub       bool // force the adversarial stub as lower memory
+	NoStub     bool
 }
 
 // GenConfig draws a random hierarchy and request scripts.
@@ -156,6 +158,18 @@ func GenConfig(r *kit.Rand, tier kit.Tier, o GenOpts) Config {
 		c.Lower.TransQ = r.PickInt(0, 0, 8, 16) // smaller queues are rejected by the builder for multi-burst requests
 		c.Lower.CmdQ = r.PickInt(0, 0, 1, 2)
 		c.Lower.FreqHz = 0
+	}
+
+	if o.Stub || (!o.NoStub && r.Chance(1, 8)) {
+		// adversarial lower memory: flat-memory semantics, seeded delays and
+		// (legal) response reordering
+		c.Lower.Kind = "stub"
+		c.Lower.FreqHz = freq()
+		c.Lower.Width = r.PickInt(1, 2, 4)
+		c.Lower.StubMinDelay = r.PickInt(0, 1, 3)
+		c.Lower.StubMaxDelay = c.Lower.StubMinDelay + r.PickInt(0, 2, 10, 60)
+		c.Lower.StubReorder = r.Chance(2, 3)
+		c.Lower.StubSeed = r.Uint64()
 	}
 
 	if !o.NoRob && r.Chance(1, 5) && (len(c.Caches) > 0 || c.Lower.Count == 1) {
